@@ -33,6 +33,7 @@ def run(prog, chk):
     tostring_table(prog, chk)
     rendering_is_written(prog, chk)
     asn1_value_reads(prog, chk)
+    template_track_depth(prog, chk)
     _run(prog, chk)
 
 
@@ -432,3 +433,45 @@ def asn1_value_reads(prog, chk):
                    % (len([r for r in reads if r[2] == obj]), obj, obj, ", ".join(bad) or "(no caller)"), loc=fn.loc(fn.elem_line(reads[0][0], reads[0][1])), fn=fn)
     if n < 1:
         raise AnalysisBroken("C12.asn1read: no function reading characters of an ASN.1 value found (ASN1_GetTimeT expected)")
+
+
+def template_track_depth(prog, chk):
+    """The template parser / constructor record the path of tags they are at in a fixed array of their entry function and hand its
+    size on in bytes, so the `position < size` test in front of one of the stores does not bound the position (and a second store is
+    not guarded at all).  What bounds it is the nesting of the template tables: the position written is at most the nesting depth of
+    the template + 1.  The depth is computed from the tables (sub-template references, which must be acyclic) and compared with the
+    smallest tracker array declared in the unit."""
+    from ksirules.model import walk
+    chk.rule("C12.trackdepth", "the tag tracker of the template parser is indexed by the template nesting depth (+1), which stays below the "
+                               "array length for every template table of the library (tables acyclic)", floor=30)
+    tm = {}
+    for name, lst in prog.globals.items():
+        for g in lst:
+            if "KSI_TlvTemplate" in (g.get("t") or "") and "init" in g:
+                subs = set()
+                for el in g["init"].get("e", []):
+                    st = (el.get("f") or {}).get("subTemplate")
+                    if st:
+                        for m in walk(st):
+                            if isinstance(m, dict) and m.get("k") == "var":
+                                subs.add(m["n"])
+                tm[name] = subs
+    arrays = [l["array"] for f in prog.all_functions() if f.unit == "tlv_template.c" for l in f.locals if "struct tlv_track_s[" in (l.get("t") or "") and l.get("array")]
+    if len(tm) < 30 or not arrays:
+        raise AnalysisBroken("template tables (%d) or tracker arrays (%d) not found" % (len(tm), len(arrays)))
+    room = min(arrays)
+    depth = {}
+
+    def d(n, stack=()):
+        if n in stack:
+            return None
+        if n not in depth:
+            ds = [d(s, stack + (n,)) for s in tm.get(n, ()) if s in tm]
+            depth[n] = None if any(x is None for x in ds) else max([1 + x for x in ds] or [0])
+        return depth[n]
+    for n in sorted(tm):
+        dn = d(n)
+        chk.ob("C12.trackdepth", n, dn is not None and dn + 1 < room,
+               "nesting depth %s: highest tracker position %s, array length %d" % (dn, "-" if dn is None else dn + 1, room) if dn is not None else
+               "the sub-template references form a cycle: the nesting, and with it the tracker position, is not bounded by the tables",
+               loc=[g for g in prog.globals[n]][0].get("file", "src/ksi/tlv_template.c") + ":%s" % [g for g in prog.globals[n]][0].get("line"), nontrivial=bool(tm[n]))
